@@ -7,6 +7,9 @@ import (
 	"encoding/json"
 	"fmt"
 	"math"
+	"os"
+	"path/filepath"
+	"strings"
 	"sort"
 	"testing"
 	"time"
@@ -15,6 +18,7 @@ import (
 	"pgregory.net/rapid"
 
 	"verifharness/internal/gen"
+	"verifharness/internal/kf"
 	"verifharness/internal/stats"
 )
 
@@ -797,6 +801,53 @@ func TestPropConcurrent(t *testing.T) {
 	})
 }
 
+// TestKnownProductUnderflow runs the witness of finding clip-intersect-product-underflow
+// (testdata/known_product_underflow.json, found by the thorough sweep at VERIF_SEED=5) through the
+// same check as every other case, without the exclusion.
+func TestKnownProductUnderflow(t *testing.T) {
+	stats.Eval("TestKnownProductUnderflow", 1)
+	c, err := loadWitness()
+	if err != nil {
+		t.Fatal(err)
+	}
+	ferr := stats.Guard(func() error { return checkCaseRaw(c) })
+	if ferr == nil {
+		return // repaired: nothing to report (and nothing is excluded once the entry is no longer listed)
+	}
+	if !underflowFamily(c.Box.Bound(), c.G.V) {
+		t.Fatalf("the witness is not in the family the exclusion uses")
+	}
+	what := "clip.Ring on the witness ring of testdata/known_product_underflow.json: " + strings.SplitN(ferr.Error(), ";", 2)[0]
+	if _, ok := kf.Get("C08", knownUnderflowKey); ok {
+		stats.Known(knownUnderflowKey, what)
+		return
+	}
+	if sh, _ := stats.Shard(); sh != 0 {
+		return
+	}
+	path := stats.RecordFailure("TestKnownProductUnderflow", c, ferr)
+	t.Fatalf("%v [not listed in known_findings.json] (replay %s)", ferr, path)
+}
+
+func loadWitness() (Case, error) {
+	var c Case
+	dir := os.Getenv("VERIF_DIR")
+	if dir == "" {
+		dir = "/verif"
+	}
+	b, err := os.ReadFile(filepath.Join(dir, "harness", "props", "c08", "testdata", "known_product_underflow.json"))
+	if err != nil {
+		return c, err
+	}
+	var rf struct {
+		Case json.RawMessage `json:"case"`
+	}
+	if err := json.Unmarshal(b, &rf); err != nil {
+		return c, err
+	}
+	return c, json.Unmarshal(rf.Case, &c)
+}
+
 // TestEnumTriangles: every closed three-vertex list on the 5x5 integer lattice
 // (degenerate ones included) against the 9 boxes with corners on {1,2,3}^2.
 func TestEnumTriangles(t *testing.T) {
@@ -844,6 +895,17 @@ func TestReplay(t *testing.T) {
 	_, raw, ok := stats.Replaying()
 	if !ok {
 		t.Skip("no replay file")
+	}
+	if name, _, _ := stats.Replaying(); name == "TestKnownProductUnderflow" {
+		var c Case
+		if err := json.Unmarshal(raw, &c); err != nil {
+			t.Fatal(err)
+		}
+		if err := stats.Guard(func() error { return checkCaseRaw(c) }); err != nil {
+			t.Fatalf("replayed case still fails: %v", err)
+		}
+		fmt.Println("replayed case passes")
+		return
 	}
 	if name, _, _ := stats.Replaying(); name == "TestEnumLarge" {
 		var c LargeCase
